@@ -598,6 +598,7 @@ package serf
 //@ func (s *Serf) handleQuery(query *messageQuery) (rebroadcast bool)
 //@   logcalls
 //@   requires wf: wfQueries(s) && query != nil && wfMembers(s) && hasMember(s, s.config.NodeName)
+//@   requires eventch_open: s.config.EventCh == nil || !closed(s.config.EventCh)
 //@   case wrap_at_max: uint64(query.LTime) == maxU64()
 //@   oldlet seen0 := qslotHas(s, query.LTime, query.ID)
 //@   oldlet c0 := s.queryClock.Time()
@@ -635,6 +636,7 @@ package serf
 
 //@ func (d *delegate) NotifyMsg(buf []byte)
 //@   requires wf: d != nil && d.serf != nil && wfSerf(d.serf) && wfEvents(d.serf) && wfQueries(d.serf) && hasMember(d.serf, d.serf.config.NodeName)
+//@   requires eventch_open: d.serf.config.EventCh == nil || !closed(d.serf.config.EventCh)
 //@   oldlet q0 := logN("queued")
 //@   oldlet c0 := callN()
 //@   let queued := logN("queued") - q0
